@@ -103,7 +103,7 @@ def main():
                                                  thresholds=[1, 2], comp_ops=['>=', '>', '='],
                                                  nonempty='sym', props=P)))
     thr = [0.5, 0.8]
-    for flt in ('PrefixFilter', 'PositionFilter', 'OverlapFilter'):
+    for flt in ('SizeFilter', 'PrefixFilter', 'PositionFilter', 'OverlapFilter'):
         cfg = dict(entry='filter_split', filter=flt, measure='JACCARD' if flt != 'OverlapFilter' else 'OVERLAP',
                    nl=2 if not quick else 1, nr=2, k=3, kmin=0, thresholds=thr if flt != 'OverlapFilter' else [1, 2],
                    comp_ops=['>='], allow_empty=[True, False], props=P)
